@@ -226,6 +226,15 @@ def rule_d(ctx, fns):
             ok = wit is None or cfg.paths_avoiding([(cfg.entry, -1)], lambda x: x.i in ids) is None
             ctx.ob("C16.d-invalidation", f.qn + "(" + f.sig[:40] + ")", "%s-after-writing:%s" % (cache, ",".join(sorted(hit))), ok, f.where(), "every path that replaces %s also calls %s" % (sorted(hit), cache) if ok else "replaces %s but a normal path does not call %s" % (sorted(hit), cache))
             n += 1
+    # 2b. the invalidators themselves drop the cache on every path (they are the only invalidation mechanism: the
+    #     initialise_cache_* functions keep an array of unchanged size)
+    for f in fns:
+        if f.short.startswith("remove_cache_for_integrals") and f.cfg_raw:
+            cfg = CFG(f)
+            drops = {c.i for c in f.calls() if (c.callee or "").split("::")[-1] in ("recycle", "clear") and "this.cached_" in key(c.c[0], True)}
+            drops |= {m.i for m in f.walk() if m.k in ("BinaryOperator", "CXXOperatorCallExpr") and m.op == "=" and key(m.c[0], True).startswith("this.cached_")}
+            w = cfg.paths_avoiding([(cfg.entry, -1)], lambda x: x.i in drops)
+            ctx.ob("C16.d-invalidation", f.qn, "drops-unconditionally", bool(drops) and w is None, f.where(), "every path empties the cache array" if drops and w is None else "a path returns without emptying the cache array: stale integrals survive an input change")
     # 3. process_data tests the flag
     for f in fns:
         if f.qn == "stir::ScatterSimulation::process_data" and f.cfg_raw:
